@@ -6,6 +6,8 @@ package harness
 import (
 	"bytes"
 	"fmt"
+	"github.com/ipld/go-ipld-prime/codec"
+	"github.com/ipld/go-ipld-prime/linking"
 	"io"
 	"sort"
 	"strings"
@@ -33,7 +35,16 @@ type Store struct {
 	// fault arming (C22): panic at the k-th (1-based) call of the named callback
 	PanicAt map[string]int
 	calls   map[string]int
+	// Instrument adds counting/panicking wrappers for the decoder, the node
+	// reifier and a named ADL reifier ("adl1") to LinkSystem() (C22).
+	Instrument bool
 }
+
+// Calls reports how often the named callback ran.
+func (s *Store) Calls(name string) int { return s.calls[name] }
+
+// Arm is the exported fault point for callbacks living outside the store (prototype chooser).
+func (s *Store) Arm(name string) { s.arm(name) }
 
 func NewStore() *Store {
 	return &Store{M: map[string][]byte{}, PanicAt: map[string]int{}, calls: map[string]int{}}
@@ -93,6 +104,27 @@ func (s *Store) LinkSystem() ipld.LinkSystem {
 			s.Log = append(s.Log, l.Binary())
 			return nil
 		}, nil
+	}
+	if s.Instrument {
+		inner := ls.DecoderChooser
+		ls.DecoderChooser = func(l ipld.Link) (codec.Decoder, error) {
+			dec, err := inner(l)
+			if err != nil {
+				return nil, err
+			}
+			return func(na datamodel.NodeAssembler, r io.Reader) error {
+				s.arm("decode")
+				return dec(na, r)
+			}, nil
+		}
+		ls.NodeReifier = func(lc linking.LinkContext, n datamodel.Node, _ *linking.LinkSystem) (datamodel.Node, error) {
+			s.arm("reify")
+			return n, nil
+		}
+		ls.KnownReifiers = map[string]linking.NodeReifier{"adl1": func(lc linking.LinkContext, n datamodel.Node, _ *linking.LinkSystem) (datamodel.Node, error) {
+			s.arm("adl")
+			return n, nil
+		}}
 	}
 	return ls
 }
